@@ -24,4 +24,29 @@ TEXT = {
         "ref": "5 (C03)", "note": _NOTE,
         "technique": "Lean 4 kernel proof (reduction lemmas + staged decide +kernel) + exhaustive-effective-domain correspondence"},
 }
+TEXT["C04"] = {
+    "level": "The unchanged tree violates the base clause on 22 of 729 vectors (known finding F1: sub-scores rounded to two decimals). "
+             "Proved: base2_code_semantics (what the code computes, all 729), base2_partial (the property on the other 707), "
+             "base2_known_violate (each listed vector is a real violation), temporal2_eq / temporal2_grid (temporal clause in full, grid "
+             "-2.0..10.0). Correspondence: all 73,629 vectors exhaustively; code judged against the Rat specification oracle; failures "
+             "outside known_findings.json are violations.",
+    "ref": "5 (C04), 6, 9", "note": _NOTE,
+    "technique": "Lean 4 kernel proof (staged decide +kernel, partial theorem + witnesses) + exhaustive differential correspondence"}
+TEXT["C05"] = {
+    "level": "Known finding F2 (1,194 of 46,656 adjusted-base tuples, same cause as F1). Proved: env2_partial (the full chain "
+             "adjusted base -> temporal -> CDP/TD on every vector whose tuple is not listed), env2_known_violate, env2_grid, env2_absent. "
+             "Correspondence: all 46,656 tuples exhaustively, every CDP x TD pair, random full vectors.",
+    "ref": "5 (C05), 6, 9", "note": _NOTE,
+    "technique": "Lean 4 kernel proof (staged decide +kernel, partial theorem + witnesses) + exhaustive tuple correspondence"}
+TEXT["C06"] = {
+    "level": "Theorems: every level/version score of the model is tenth k with k in 0..100 (v2 environmental: exception exactly as stated) and "
+             "the severity is band k (101-point kernel evaluation of severity()); tenth k is the nearest double to k/10; printing needs "
+             "at most one decimal. Correspondence on the exhaustive base domains and seeded environmental vectors.",
+    "ref": "5 (C06)", "note": _NOTE,
+    "technique": "Lean 4 kernel proof (corollaries of C01-C05 + decide +kernel on the grid) + differential correspondence"}
+TEXT["C13"] = {
+    "level": "Theorems: temporal all-X = base (v2, v3), temporal <= base (conjuncts of the temporal grid lemmas), v3 environmental all-X = "
+             "temporal except (3.1, scope changed) with a witness that the exception is real, v2 TD:N => 0 on every vector.",
+    "ref": "5 (C13)", "note": _NOTE,
+    "technique": "Lean 4 kernel proof (grid lemma conjuncts, symbolic reduction) + exhaustive differential correspondence"}
 NOT_YET = {}
